@@ -38,6 +38,9 @@ CHECKS = {
     "C10": (A, "4.10", "online strict RFC 1035 parser + echo/aux oracle on every datagram emitted at the process boundary",
             "held on every DNS-mode datagram the real programs emitted in the executed scenarios (model-client sessions over all query types/codecs/fragment sizes and real-client tunnel runs)",
             "strict parser written from RFC 1035 (simnet/dnsstrict.py); queries with '.'/NUL inside labels or malformed queries are outside the echo rule"),
+    "C11": (A, "4.11", "end-to-end monitor: real client through a transforming relay (member of the property's product family) to the real server; handshake completion within a virtual-time bound, then C02's exactly-once/in-order sequence monitor on packets sent through the same relay",
+            "held on every executed family member (all single-axis corners + seeded members of the full product, autodetected and with one forced -T/-O the path can carry): autodetection completed, and after every completed handshake 12 packets each way were delivered exactly once in order - except the recorded known finding",
+            "liveness restated as bounded progress (300 virtual s handshake, 120 s delivery); forced options the path cannot carry are recorded but not judged; NULL/PRIVATE RDATA is relayed opaque (the family transforms names and text)"),
     "C12": (B, "4.12", "differential monitor over receive-buffer residues: same datagram + 6 different stale-buffer contents through the tree's dns_decode(), all observable outputs compared",
             "held on every generated datagram (valid queries/answers of all 7 record types cut at every byte, pointers and label lengths reaching the datagram end, inflated RDLENGTH / TXT lengths) x 6 residues",
             "sanitizers cannot see this class (the 64 KB buffer is addressable); a read past the end that cannot change any output is not reported"),
@@ -67,7 +70,7 @@ CHECKS = {
             "forwarded copies are compared by strict parse (id, labels, type), relayed replies byte-for-byte; a header-less reply may reach nobody or the asker of id 0"),
 }
 
-NOT_YET = "check not built yet (design in DESIGN.md section 4); will be claimed once its check runs silently on the unchanged tree"
+NOT_YET = "no check registered for this property"
 
 
 def main():
